@@ -81,16 +81,58 @@ Section Refine2.
     intros _. exists JNull. split; [reflexivity|]. apply render_nullish; auto.
   Qed.
 
+  Definition frame (n : node) (as_item : bool) (parent parent' : json) : Prop :=
+    as_item = false -> parent' = parent \/
+       ((is_obj_node n || is_arr_node n) = true /\ exists k, node_path n = [k] /\ mutk k parent parent').
+  Definition node_post (n : node) (as_item : bool) (parent : json) (tns : list (option bytes))
+             (parent' : json) (errs : list gerr) (st : wstatus) (res : option json) (errs' : list gerr) : Prop :=
+    errs = errs' /\ st <> WPanic /\ (st = WErr -> res = None) /\
+    (st = WOk -> exists t, res = Some t /\ render n parent' tns false = (marshal t, false)) /\
+    frame n as_item parent parent'.
+
+  Lemma post_err : forall n as_item parent tns parent' e,
+    frame n as_item parent parent' -> node_post n as_item parent tns parent' e WErr None e.
+  Proof. intros. repeat split; try congruence; auto. Qed.
+  Lemma post_ok : forall n as_item parent tns parent' e t,
+    render n parent' tns false = (marshal t, false) ->
+    frame n as_item parent parent' -> node_post n as_item parent tns parent' e WOk (Some t) e.
+  Proof. intros. repeat split; try congruence; auto. intros _. exists t. auto. Qed.
+  Lemma frame_same : forall n as_item parent, frame n as_item parent parent.
+  Proof. intros n as_item parent _. left. reflexivity. Qed.
+  Lemma frame_set : forall n as_item parent x v,
+    (is_obj_node n || is_arr_node n) = true ->
+    (as_item = true /\ node_path n = []) \/ (as_item = false /\ exists k, node_path n = [k]) ->
+    get_path (node_path n) parent = Some v ->
+    frame n as_item parent (set_path (node_path n) x parent).
+  Proof.
+    intros n as_item parent x v Hoa Hshape Hg Has. right. split; [exact Hoa|].
+    destruct Hshape as [[H _]|[_ [k Hk]]]; [congruence|].
+    exists k. split; [exact Hk|]. rewrite Hk in *. eapply mutk_set; eauto.
+  Qed.
+  Lemma post_nulled : forall n as_item parent tns e v,
+    (is_obj_node n || is_arr_node n) = true -> node_nullable n = true ->
+    (as_item = true /\ node_path n = []) \/ (as_item = false /\ exists k, node_path n = [k]) ->
+    get_path (node_path n) parent = Some v ->
+    node_post n as_item parent tns (set_path (node_path n) JNull parent) e WOk (Some JNull) e.
+  Proof.
+    intros n as_item parent tns e v Hoa Hnl Hshape Hg.
+    apply post_ok; [|eapply frame_set; eauto].
+    apply render_nullish; auto.
+    - destruct n; try discriminate; reflexivity.
+    - erewrite get_set_path; eauto. destruct Hshape as [[_ ->]|[_ [k ->]]]; eauto.
+  Qed.
+
   Lemma refines_arr : forall p nl item, refines deny item -> refines deny (NArr p nl item).
   Proof.
     intros p nl item IH as_item depth Hwf parent path tns parent' errs st res errs' Hp Hc.
+    change (node_post (NArr p nl item) as_item parent tns parent' errs st res errs').
     rewrite plan_wf_arr_eq in Hwf. apply andb_true_iff in Hwf. destruct Hwf as [Hpath Hiwf].
     apply path_shape in Hpath.
     assert (p = [] \/ exists k, p = [k]) as Hp01 by (destruct Hpath as [[_ ->]|[_ Hk]]; auto).
     rewrite prewalk_arr_eq in Hp. rewrite complete_arr_eq in Hc. cbv zeta in Hp.
     destruct (get_path p parent) as [x|] eqn:Hg;
       [destruct x as [| b | raw | s | items | m]|]; cbn [is_null_or_missing] in Hp;
-      try (injection Hp as <- <- <-; injection Hc as <- <-; repeat split; try congruence; auto; fail);
+      try (injection Hp as <- <- <-; injection Hc as <- <-; apply post_err; apply frame_same);
       try (apply (refines_missing (NArr p nl item) as_item parent path parent' errs st res errs' tns);
            cbn [node_path node_nullable]; auto; rewrite Hg; reflexivity).
     destruct (pw_items deny item (push_names path p) tns items 0) as [[items' e] s] eqn:Hpi.
@@ -98,21 +140,144 @@ Section Refine2.
     destruct (items_ok deny item nl p _ _ depth IH Hiwf _ _ _ _ _ _ _ Hpi Hci) as (He & Hs). subst e'.
     destruct s as [s0|].
     - destruct Hs as (-> & ->).
-      destruct nl; [destruct p as [|k [|k2 rp]]|]; injection Hp as <- <- <-; injection Hc as <- <-;
-        repeat split; try congruence; auto.
-      + intros _. exists JNull. split; [reflexivity|]. apply render_nullish; auto.
-        cbn [node_path]. erewrite mutk_get_same by eauto. reflexivity.
-      + intros ->. right. split; [reflexivity|]. exists k. split; [reflexivity|]. eapply mutk_set; eauto.
-      + intros _. exfalso. destruct Hp01 as [H|[k' H]]; discriminate H.
-      + intros ->. destruct Hpath as [[H _]|[_ [k' H]]]; discriminate H.
-      + intros ->. destruct Hpath as [[H _]|[_ [k' ->]]]; [discriminate H|].
-        right. split; [reflexivity|]. exists k'. split; [reflexivity|]. eapply mutk_set; eauto.
+      destruct nl.
+      + destruct p as [|k rp].
+        * injection Hp as <- <- <-; injection Hc as <- <-. apply post_err.
+          apply (frame_set (NArr [] true item) as_item parent (JArr items') (JArr items)); auto.
+        * injection Hp as <- <- <-; injection Hc as <- <-.
+          apply (post_nulled (NArr (k :: rp) true item) as_item parent tns e (JArr items)); auto.
+      + injection Hp as <- <- <-; injection Hc as <- <-. apply post_err.
+        apply (frame_set (NArr p false item) as_item parent (JArr items') (JArr items)); auto.
     - destruct Hs as (l & -> & Hrd). injection Hp as <- <- <-. injection Hc as <- <-.
-      repeat split; try congruence; auto.
-      + intros _. exists (JArr l). split; [reflexivity|].
-        rewrite render_arr_eq. cbv zeta. erewrite get_set_path by eauto. cbn [is_null_or_missing].
+      apply post_ok.
+      + rewrite render_arr_eq. cbv zeta. erewrite get_set_path by eauto. cbn [is_null_or_missing].
         rewrite Hrd. rewrite marshal_arr_eq, marshal_items_bytes. reflexivity.
-      + intros ->. destruct Hpath as [[H _]|[_ [k' ->]]]; [discriminate H|].
-        right. split; [reflexivity|]. exists k'. split; [reflexivity|]. eapply mutk_set; eauto.
+      + apply (frame_set (NArr p nl item) as_item parent (JArr items') (JArr items)); auto.
+  Qed.
+
+  Lemma refines_obj : forall p nl ty poss inacc unres fields,
+    Forall (fun f => refines deny (fval f)) fields -> refines deny (NObj p nl ty poss inacc unres fields).
+  Proof.
+    intros p nl ty poss inacc unres fields IH as_item depth Hwf parent path tns parent' errs st res errs' Hp Hc.
+    change (node_post (NObj p nl ty poss inacc unres fields) as_item parent tns parent' errs st res errs').
+    rewrite plan_wf_obj_eq in Hwf. apply andb_true_iff in Hwf. destruct Hwf as [Hpath Hwf].
+    apply andb_true_iff in Hwf. destruct Hwf as [Hdist Hfwf].
+    apply path_shape in Hpath.
+    assert (p = [] \/ exists k, p = [k]) as Hp01 by (destruct Hpath as [[_ ->]|[_ Hk]]; auto).
+    rewrite prewalk_obj_eq in Hp. rewrite complete_obj_eq in Hc. cbv zeta in Hp, Hc.
+    destruct unres.
+    { injection Hp as <- <- <-; injection Hc as <- <-. apply post_err; apply frame_same. }
+    destruct (get_path p parent) as [x|] eqn:Hg;
+      [destruct x as [| b | raw | s | items | m]|]; cbn [is_null_or_missing] in Hp;
+      try (injection Hp as <- <- <-; injection Hc as <- <-; apply post_err; apply frame_same);
+      try (apply (refines_missing (NObj p nl ty poss inacc false fields) as_item parent path parent' errs st res errs' tns);
+           cbn [node_path node_nullable]; auto; rewrite Hg; reflexivity).
+    destruct (tn_bad ty poss (typename_of (JObj m))) eqn:Htb.
+    { destruct nl; injection Hp as <- <- <-; injection Hc as <- <-.
+      - apply post_ok; [|apply frame_same].
+        rewrite render_obj_eq. cbv zeta. rewrite Hg. cbn [is_null_or_missing]. rewrite Htb. reflexivity.
+      - apply post_err; apply frame_same. }
+    set (tn := typename_of (JObj m)) in *.
+    destruct (pw_fields deny nl p (push_names path p) (tn :: tns) fields (JObj m)) as [[value' e] s] eqn:Hpf.
+    destruct (comp_fields deny (JObj m) (push_names path p) (tn :: tns) tn fields) as [r e'] eqn:Hcf.
+    assert (exists m0, JObj m = JObj m0) as Hobj by eauto.
+    destruct (fields_ok deny nl p _ _ depth fields IH Hfwf Hdist (JObj m) tn eq_refl Hobj _ _ _ _ _ Hpf Hcf)
+      as (He & (m' & Hm') & Htn' & Hsk' & Hfr' & Hs).
+    subst e' value'.
+    destruct s as [[nulled st0]|].
+    - destruct Hs as (-> & Hn & Hst). destruct nulled.
+      + rewrite <- Hn in Hc. injection Hp as <- <- <-; injection Hc as <- <-.
+        symmetry in Hn. apply andb_true_iff in Hn. destruct Hn as [-> Hpne].
+        apply (post_nulled (NObj p true ty poss inacc false fields) as_item parent tns e (JObj m)); auto.
+      + rewrite <- Hn in Hc. subst st0. injection Hp as <- <- <-; injection Hc as <- <-.
+        apply post_err.
+        apply (frame_set (NObj p nl ty poss inacc false fields) as_item parent (JObj m') (JObj m)); auto.
+    - destruct Hs as (l & -> & Hrd). injection Hp as <- <- <-; injection Hc as <- <-.
+      apply post_ok.
+      + rewrite render_obj_eq. cbv zeta. erewrite get_set_path by eauto. cbn [is_null_or_missing].
+        rewrite Htn'. rewrite Htb. rewrite Hrd by auto.
+        rewrite marshal_obj_eq, marshal_members_bytes. reflexivity.
+      + apply (frame_set (NObj p nl ty poss inacc false fields) as_item parent (JObj m') (JObj m)); auto.
+  Qed.
+
+  Theorem refines_all : forall n, refines deny n.
+  Proof.
+    induction n using node_ind'.
+    - apply refines_obj; assumption.
+    - apply refines_arr; assumption.
+    - apply (refines_scalar _ EK_STRING is_jstr is_jstr); auto.
+    - apply (refines_scalar _ EK_BOOL is_jbool is_jbool); auto.
+    - apply (refines_scalar _ EK_INT is_jnum is_jnum); auto.
+    - apply (refines_scalar _ EK_FLOAT is_jnum (fun _ => true)); auto.
+    - apply (refines_scalar _ 0 (fun _ => true) (fun _ => true)); auto.
+    - apply (refines_scalar _ 0 (fun _ => true) (fun _ => true)); auto.
+    - apply refines_enum.
+    - intros as_item depth Hwf parent path tns parent' errs st res errs' Hp Hc.
+      injection Hp as <- <- <-; injection Hc as <- <-.
+      apply post_ok; [reflexivity | apply frame_same].
+    - intros as_item depth Hwf parent path tns parent' errs st res errs' Hp Hc.
+      injection Hp as <- <- <-; injection Hc as <- <-.
+      apply post_ok; [|apply frame_same].
+      simpl in Hwf. cbn [render marshal]. rewrite escape_string_plain by exact Hwf. reflexivity.
+    - intros as_item depth Hwf parent path tns parent' errs st res errs' Hp Hc.
+      injection Hp as <- <- <-; injection Hc as <- <-.
+      apply post_ok; [reflexivity | apply frame_same].
+    - intros as_item depth Hwf parent path tns parent' errs st res errs' Hp Hc.
+      injection Hp as <- <- <-; injection Hc as <- <-.
+      apply post_ok; [reflexivity | apply frame_same].
+  Qed.
+
+  (* ---- the root ---- *)
+  Lemma root_wf_shape : forall root, root_wf root = true ->
+    exists ty poss inacc fields, root = NObj [] false ty poss inacc false fields /\ plan_wf true 0 root = true.
+  Proof.
+    intros root H. destruct root; try discriminate. unfold root_wf in H.
+    destruct path; [|discriminate]. destruct nullable; [discriminate|]. destruct unresolvable; [discriminate|].
+    eauto 10.
+  Qed.
+
+  Lemma render_root : forall ty poss inacc fields v tns l,
+    render (NObj [] false ty poss inacc false fields) v tns false = (marshal (JObj l), false) ->
+    render (NObj [] false ty poss inacc false fields) v tns true = (marshal_members l, false).
+  Proof.
+    intros ty poss inacc fields v tns l H. rewrite render_obj_eq in *. cbv zeta in *.
+    cbn [get_path] in *.
+    destruct (is_null_or_missing (Some v)); [discriminate|].
+    destruct v; try discriminate.
+    destruct (tn_bad ty poss (typename_of (JObj members))); [discriminate|].
+    destruct (rd_fields false (JObj members) (typename_of (JObj members) :: tns) fields false) as [b err].
+    destruct err; [discriminate|].
+    rewrite marshal_obj_eq in H. cbn [app] in H. injection H as H.
+    apply app_inv_tail in H. subst b. rewrite app_nil_r. reflexivity.
+  Qed.
+
+  Theorem resolve_refines_complete_lemma : forall root data,
+    root_wf root = true ->
+    let r := resolve deny root data in
+    r_panic r = false /\ r_render_err r = false /\
+    r_errors r = snd (complete_root deny root data) /\
+    r_data r = data_bytes (fst (complete_root deny root data)) /\
+    (r_data_null r = true <-> fst (complete_root deny root data) = None).
+  Proof.
+    intros root data Hwf. destruct (root_wf_shape root Hwf) as (ty & poss & inacc & fields & -> & Hpw).
+    unfold resolve, complete_root.
+    destruct (prewalk deny (NObj [] false ty poss inacc false fields) data [] []) as [[data' errs] st] eqn:Hp.
+    destruct (complete deny (NObj [] false ty poss inacc false fields) data [] []) as [res errs'] eqn:Hc.
+    destruct (refines_all _ true 0%nat Hpw _ _ _ _ _ _ _ _ Hp Hc) as (He & Hnp & Herr & Hok & _).
+    subst errs'. cbn [fst snd].
+    destruct st.
+    - destruct (Hok eq_refl) as (t & -> & Hrd).
+      assert (exists l, t = JObj l) as [l ->].
+      { rewrite complete_obj_eq in Hc. cbv zeta in Hc. cbn [get_path] in Hc.
+        destruct data; cbv beta iota zeta in Hc; try discriminate Hc.
+        destruct (tn_bad ty poss (typename_of (JObj members))); cbv beta iota zeta in Hc; [discriminate Hc|].
+        destruct (comp_fields deny (JObj members) (push_names [] []) (typename_of (JObj members) :: [])
+                              (typename_of (JObj members)) fields) as [[l|] e]; cbv beta iota zeta in Hc.
+        - injection Hc as <- _. eauto.
+        - discriminate Hc. }
+      rewrite (render_root _ _ _ _ _ _ _ Hrd). cbn [r_panic r_render_err r_errors r_data r_data_null data_bytes].
+      rewrite marshal_obj_eq. repeat split; try discriminate.
+    - rewrite (Herr eq_refl). cbn. repeat split; auto.
+    - congruence.
   Qed.
 End Refine2.
